@@ -145,8 +145,8 @@ func TestC06(t *testing.T) {
 	}
 	r := vh.Sub(seed, "c06")
 	keys := [][]byte{r.Bytes(32), make([]byte, 32), bytes.Repeat([]byte{0xFF}, 32), r.Bytes(32)}
-	nTamperFrames := vh.Pick(6, 60)
-	nRandTamper := vh.Pick(300, 5000)
+	nTamperFrames := vh.Pick(16, 60)
+	nRandTamper := vh.Pick(1500, 5000)
 
 	for ki, keyRaw := range keys {
 		for _, withDialect := range []bool{false, true} {
